@@ -4,6 +4,8 @@ import MosnVerif.Drive.RetryDrive
 import MosnVerif.Model.RouteFinalize
 import MosnVerif.Model.HeaderWiring
 import MosnVerif.Drive.C17Policy
+import MosnVerif.Drive.C17HeaderMaps
+import MosnVerif.Drive.C17PerTry
 namespace MosnVerif.Drive.C17
 open MosnVerif.Drive MosnVerif.Model.Headers MosnVerif.Gen.HeaderMutation MosnVerif.Gen.ProxyTimeout
 
@@ -194,6 +196,9 @@ def run (caseToks impl : List String) : String :=
   | "hw" :: rest => hw rest impl
   | "rp" :: rest => C17Policy.rp parseInt64 optStr rest impl
   | "re" :: rest => C17Policy.re rest impl
+  | "hm" :: rest => C17HeaderMaps.hm rest impl
+  | "ah" :: rest => C17HeaderMaps.ah rest impl
+  | "pa" :: rest => C17PerTry.pa rest impl
   | _ => "E E unknown-kind"
 
 end MosnVerif.Drive.C17
